@@ -118,6 +118,7 @@ inductive Op where
   | delete (r : Nat) (t : Bytes)
   | search (r : Nat) (path : Bytes) (table : List (Bytes × List Bytes))
   | display (r : Nat)
+  | dump (r : Nat)
   | clone (r r2 : Nat)
   | drop (r : Nat)
   | parse (t : Bytes)
@@ -154,6 +155,7 @@ def parseOp (line : String) : Op :=
   | ["search", r, p, tb] =>
     match r.toNat?, unhex p, parseTable tb with | some r, some p, some tb => .search r p tb | _, _, _ => bad
   | ["display", r] => match r.toNat? with | some r => .display r | none => bad
+  | ["dump", r] => match r.toNat? with | some r => .dump r | none => bad
   | ["clone", r, r2] => match r.toNat?, r2.toNat? with | some r, some r2 => .clone r r2 | _, _ => bad
   | ["drop", r] => match r.toNat? with | some r => .drop r | none => bad
   | ["parse", t] => match unhex t with | some t => .parse t | none => bad
@@ -164,5 +166,26 @@ def envOf (table : List (Bytes × List Bytes)) : Env :=
       | some e => e.2.contains v
       | none => false,
    utf8Valid⟩
+
+
+/-! structural dump of the model tree in the format of the hook's `tree_dump`: one entry per node in stored order,
+`depth,kind,label,constraint,has-data` (skeleton) and the two shortcut flags plus the dirty mark (hidden state) -/
+mutual
+def nodeDump (depth : Nat) (kind : String) (lab cons : Bytes) : Node → List (String × String)
+  | .mk x s dc d wc w ec e ds ws dirty =>
+    (s!"{depth},{kind},{hex lab},{hex cons},{if x.isSome then "D" else "."}",
+      s!"{if ds then 1 else 0}{if ws then 1 else 0}{if dirty then 1 else 0}") ::
+    (kidsDump (depth + 1) "s" s ++ kidsDump (depth + 1) "dc" dc ++ kidsDump (depth + 1) "d" d ++
+     kidsDump (depth + 1) "wc" wc ++ kidsDump (depth + 1) "w" w ++ kidsDump (depth + 1) "ec" ec ++ kidsDump (depth + 1) "e" e)
+def kidsDump (depth : Nat) (kind : String) : Kids → List (String × String)
+  | .nil => []
+  | .cons l n r =>
+    nodeDump depth kind (if kind == "s" then l.pre else l.name) (if kind == "dc" || kind == "wc" || kind == "ec" then l.cons else []) n
+      ++ kidsDump depth kind r
+end
+
+def showDump (root : Node) : String :=
+  let ls := nodeDump 0 "root" [] [] root
+  "dump " ++ ";".intercalate (ls.map (·.1)) ++ " F=" ++ ";".intercalate (ls.map (·.2))
 
 end Driver
